@@ -204,6 +204,11 @@ type wRun struct {
 	outputs map[int][]*message.Message // delivery number -> messages its Publish call received (for chained deliveries)
 }
 
+// how long the harness waits for the router before it calls a message "not taken" / "not settled":
+// generous, because the machine may be heavily loaded; a router that really loses messages trips the
+// fail-fast counter after a few of these
+const wPatience = 20 * time.Second
+
 var wAnomalies int32 // once the router misbehaves grossly the remaining programs are skipped (fail fast)
 
 func (r *wRun) anomaly(f string, a ...interface{}) {
@@ -462,7 +467,7 @@ func wRunProgram(p *wProgram, in *script.Interner) {
 			r.pubIfs = append(r.pubIfs, &namedPub{Publisher: sp, name: ty})
 		}
 	}
-	router, err := message.NewRouter(message.RouterConfig{CloseTimeout: 3 * time.Second}, watermill.NopLogger{})
+	router, err := message.NewRouter(message.RouterConfig{CloseTimeout: 30 * time.Second}, watermill.NopLogger{})
 	if err != nil {
 		r.anomaly("NewRouter: %v", err)
 		return
@@ -564,7 +569,7 @@ func wRunProgram(p *wProgram, in *script.Interner) {
 				case err := <-runErr:
 					r.anomaly("Run returned early: %v", err)
 					return
-				case <-time.After(5 * time.Second):
+				case <-time.After(wPatience):
 					r.anomaly("router did not start")
 					return
 				}
@@ -594,7 +599,7 @@ func wRunProgram(p *wProgram, in *script.Interner) {
 		}
 		select {
 		case <-runErr:
-		case <-time.After(5 * time.Second):
+		case <-time.After(wPatience):
 			r.anomaly("Run did not return after Close")
 		}
 	}
@@ -660,12 +665,12 @@ func (r *wRun) deliverBatch(group []*wOp, nDeliver *int) {
 		wg.Add(1)
 		go func(e emit) {
 			defer wg.Done()
-			if !e.sub.send(e.c.msg, 3*time.Second) {
+			if !e.sub.send(e.c.msg, wPatience) {
 				e.c.rec("not-taken")
 				r.anomaly("copy %s was not taken by its subscription", e.c.key)
 				return
 			}
-			switch script.WaitSettled(e.c.msg, 3*time.Second) {
+			switch script.WaitSettled(e.c.msg, wPatience) {
 			case 1:
 				e.c.rec("settle", true)
 			case 2:
@@ -701,7 +706,7 @@ func (r *wRun) deliverBatch(group []*wOp, nDeliver *int) {
 // ---------------------------------------------------------------- generators
 
 var wTopics = []string{"t1", "t2", "t3", ""}
-var wNames = []string{"h1", "h2", "h3", "h4", "h5", "h6", ""}
+var wNames = []string{"h1", "h2", "h3", "h4", "h5", "h11", ""}
 
 type wGen struct {
 	rng     *rand.Rand
